@@ -109,18 +109,24 @@ func (c *Compiler) compile(typeptr uintptr) (*OpcodeSet, error) {
 }
 
 func (c *Compiler) codeToOpcodeSet(typ *runtime.Type, code Code) (*OpcodeSet, error) {
-	noescapeKeyCode := c.codeToOpcode(&compileContext{
+	noescapeKeyCode, err := c.codeToOpcode(&compileContext{
 		structTypeToCodes: map[uintptr]Opcodes{},
 		recursiveCodes:    &Opcodes{},
 	}, typ, code)
+	if err != nil {
+		return nil, err
+	}
 	if err := noescapeKeyCode.Validate(); err != nil {
 		return nil, err
 	}
-	escapeKeyCode := c.codeToOpcode(&compileContext{
+	escapeKeyCode, err := c.codeToOpcode(&compileContext{
 		structTypeToCodes: map[uintptr]Opcodes{},
 		recursiveCodes:    &Opcodes{},
 		escapeKey:         true,
 	}, typ, code)
+	if err != nil {
+		return nil, err
+	}
 	noescapeKeyCode = copyOpcode(noescapeKeyCode)
 	escapeKeyCode = copyOpcode(escapeKeyCode)
 	setTotalLengthToInterfaceOp(noescapeKeyCode)
@@ -892,21 +898,40 @@ func (c *Compiler) isPtrMarshalTextType(typ *runtime.Type) bool {
 	return !typ.Implements(marshalTextType) && runtime.PtrTo(typ).Implements(marshalTextType)
 }
 
-func (c *Compiler) codeToOpcode(ctx *compileContext, typ *runtime.Type, code Code) *Opcode {
+func (c *Compiler) codeToOpcode(ctx *compileContext, typ *runtime.Type, code Code) (*Opcode, error) {
 	codes := code.ToOpcode(ctx)
 	codes.Last().Next = newEndOp(ctx, typ)
-	c.linkRecursiveCode(ctx)
-	return codes.First()
+	if err := c.linkRecursiveCode(ctx); err != nil {
+		return nil, err
+	}
+	return codes.First(), nil
 }
 
-func (c *Compiler) linkRecursiveCode(ctx *compileContext) {
+func (c *Compiler) linkRecursiveCode(ctx *compileContext) error {
 	recursiveCodes := map[uintptr]*CompiledCode{}
-	for _, recursive := range *ctx.recursiveCodes {
+	// ctx.recursiveCodes may grow while linking
+	for i := 0; i < len(*ctx.recursiveCodes); i++ {
+		recursive := (*ctx.recursiveCodes)[i]
 		typeptr := uintptr(unsafe.Pointer(recursive.Type))
-		codes := ctx.structTypeToCodes[typeptr]
 		if recursiveCode, ok := recursiveCodes[typeptr]; ok {
 			*recursive.Jmp = *recursiveCode
 			continue
+		}
+		codes, exists := ctx.structTypeToCodes[typeptr]
+		if !exists {
+			// the struct has been expanded as an embedded field only,
+			// so there is no program of its own to jump to yet.
+			structCode, err := c.structCode(recursive.Type, false)
+			if err != nil {
+				return err
+			}
+			structCtx := &compileContext{
+				escapeKey:         ctx.escapeKey,
+				structTypeToCodes: ctx.structTypeToCodes,
+				recursiveCodes:    ctx.recursiveCodes,
+			}
+			codes = structCode.ToOpcode(structCtx)
+			codes.Last().Next = newEndOp(structCtx, recursive.Type)
 		}
 
 		code := copyOpcode(codes.First())
@@ -936,4 +961,5 @@ func (c *Compiler) linkRecursiveCode(ctx *compileContext) {
 
 		recursiveCodes[typeptr] = compiled
 	}
+	return nil
 }
